@@ -144,6 +144,34 @@ pub fn generichash_vec_keys(out: &mut Out, rng: &mut Rng) {
     }
 }
 
+/// C08: key lengths at and beyond the edges (no key, the empty key, one byte, 15 / 16 / 17, 64 / 65): whatever the one-shot
+/// function answers -- a digest or a refusal -- every chunking of the incremental interface answers the same
+pub fn generichash_edge_keys(out: &mut Out, rng: &mut Rng) {
+    use dryoc::generichash::GenericHash;
+    for klen in [None, Some(0usize), Some(1), Some(15), Some(16), Some(17), Some(64), Some(65)] {
+        let keyv = klen.map(|k| rng.bytes(k));
+        let key = keyv.as_deref();
+        for len in [0usize, 1, 127, 128, 129, 300] {
+            let msg = rng.bytes(len);
+            let cut = rng.below(len as u64 + 1) as usize;
+            let rp = json!({"op":"generichash.edge-key","key":key.map(hx),"msg":hx(&msg),"split":cut});
+            out.search_evaluations += 3;
+            let one = crate::c07::d_generichash(32, &msg, key);
+            for (what, chunks) in [("one piece", vec![&msg[..]]), ("two pieces", vec![&msg[..cut], &msg[cut..]]), ("empty pieces around", vec![&msg[..0], &msg[..cut], &msg[..0], &msg[cut..], &msg[..0]])] {
+                let inc = crate::c07::d_generichash_chunks(32, key, &chunks, 32);
+                if inc != one { out.hit("generichash.incremental-differs-from-oneshot.edge-key", format!("key {:?} bytes, message {} bytes, {} (one-shot {}, incremental {})", klen, len, what, one.class(), inc.class()), rp.clone()); }
+            }
+            if let (Outcome::Ok(o), Some(l)) = (&one, sodium::generichash(32, &msg, key)) { if klen != Some(0) && *o != l { out.hit("generichash.edge-key.differs-from-libsodium", format!("key {:?} bytes", klen), rp.clone()); } }
+        }
+        if let Some(k) = &keyv {
+            let msg = rng.bytes(40);
+            let one = guard(|| GenericHash::<32, 32>::hash_to_vec(&msg, Some(k)));
+            let inc = guard(|| { let mut h: GenericHash<32, 32> = GenericHash::new(Some(k))?; h.update(&msg[..7].to_vec()); h.update(&msg[7..].to_vec()); h.finalize_to_vec() });
+            if one != inc { out.hit("obj.generichash.incremental-differs-from-oneshot.edge-key", format!("key of {} bytes (one-shot {}, incremental {})", k.len(), one.class(), inc.class()), json!({"op":"obj.GenericHash.edge-key","key":hx(k),"msg":hx(&msg)})); }
+        }
+    }
+}
+
 /// C05: key-exchange convenience forms
 pub fn kx(out: &mut Out, rng: &mut Rng) {
     use dryoc::kx::Session;
@@ -163,6 +191,18 @@ pub fn kx(out: &mut Out, rng: &mut Rng) {
         differ(out, "keypair.kx_new_client_session", guard(|| ckp.kx_new_client_session::<StackByteArray<32>>(&skp.public_key)).map(|s| both_slices(&s)), &want_c, rp.clone());
         differ(out, "keypair.kx_new_server_session", guard(|| skp.kx_new_server_session::<StackByteArray<32>>(&ckp.public_key)).map(|s| both_slices(&s)), &want_s, rp.clone());
         differ(out, "kx.into_parts", guard(|| Session::<StackByteArray<32>>::new_client(&ckp, &skp.public_key)).map(|s| { let (rx, tx) = s.into_parts(); [rx.to_vec(), tx.to_vec()].concat() }), &want_c, rp.clone());
+        // the session hashes the caller's public key as given (libsodium does): a pair assembled from slices whose public half
+        // is another encoding of the point, or unrelated bytes
+        for (what, pk2) in [("high bit set", { let mut x = pka; x[31] |= 0x80; x }), ("unrelated", rng.arr::<32>()), ("all zero", [0u8; 32])] {
+            let kp2 = match dryoc::kx::KeyPair::from_slices(&pk2, &ska) { Ok(k) => k, Err(_) => { out.hit("kx.keypair.from_slices.fails", what.to_string(), rp.clone()); continue; } };
+            let kp2: dryoc::kx::KeyPair = kp2;
+            let rp2 = json!({"op":"obj.kx.own-public-key-as-given","own_pk":hx(&pk2),"own_sk":hx(&ska),"peer_pk":hx(&pkb),"what":what});
+            if let Some((lrx, ltx)) = sodium::kx_client(&pk2, &ska, &pkb) {
+                differ(out, "kx.session.own-public-key-as-given(client)", guard(|| Session::<StackByteArray<32>>::new_client(&kp2, &skp.public_key)).map(|s| both(&s)), &[lrx.to_vec(), ltx.to_vec()].concat(), rp2.clone());
+                differ(out, "keypair.kx_new_client_session.own-public-key-as-given", guard(|| kp2.kx_new_client_session::<StackByteArray<32>>(&skp.public_key)).map(|s| both_slices(&s)), &[lrx.to_vec(), ltx.to_vec()].concat(), rp2.clone()); }
+            if let Some((lrx, ltx)) = sodium::kx_server(&pk2, &ska, &pkb) {
+                differ(out, "kx.session.own-public-key-as-given(server)", guard(|| Session::<StackByteArray<32>>::new_server(&kp2, &skp.public_key)).map(|s| both(&s)), &[lrx.to_vec(), ltx.to_vec()].concat(), rp2.clone()); }
+        }
     }
 }
 
@@ -405,6 +445,15 @@ pub fn seeded_object_keys(out: &mut Out, rng: &mut Rng) {
         for (what, tail) in [("honest", spk.to_vec()), ("zero tail", vec![0u8; 32]), ("seed twice", seed.to_vec()), ("another key", sodium::sign_seed_keypair(&[9u8; 32]).0.to_vec())] {
             let sk64: [u8; 64] = [seed.to_vec(), tail].concat().try_into().unwrap();
             differ(out, &format!("sign.keypair.from_secret_key({})", what), guard_total(|| { let kp = dryoc::sign::SigningKeyPair::<dryoc::sign::PublicKey, dryoc::sign::SecretKey>::from_secret_key(StackByteArray::<64>::from(&sk64)); [kp.public_key.to_vec(), kp.secret_key.to_vec()].concat() }), &[spk.to_vec(), ssk.to_vec()].concat(), rp.clone());
+        }
+        // signing key pair from a seed, in every container: libsodium's crypto_sign_seed_keypair
+        { use dryoc::sign::SigningKeyPair;
+          let want = [spk.to_vec(), ssk.to_vec()].concat();
+          differ(out, "sign.keypair.from_seed(stack)", guard_total(|| { let kp = SigningKeyPair::<StackByteArray<32>, StackByteArray<64>>::from_seed(&StackByteArray::<32>::from(&seed)); [kp.public_key.to_vec(), kp.secret_key.to_vec()].concat() }), &want, rp.clone());
+          differ(out, "sign.keypair.from_seed(array seed)", guard_total(|| { let kp = SigningKeyPair::<StackByteArray<32>, StackByteArray<64>>::from_seed(&seed); [kp.public_key.to_vec(), kp.secret_key.to_vec()].concat() }), &want, rp.clone());
+          differ(out, "sign.keypair.from_seed(vec)", guard_total(|| { let kp = SigningKeyPair::<Vec<u8>, Vec<u8>>::from_seed(&seed.to_vec()); [kp.public_key.clone(), kp.secret_key.clone()].concat() }), &want, rp.clone());
+          differ(out, "sign.keypair.from_seed(vec, stack)", guard_total(|| { let kp = SigningKeyPair::<Vec<u8>, StackByteArray<64>>::from_seed(&seed); [kp.public_key.clone(), kp.secret_key.to_vec()].concat() }), &want, rp.clone());
+          differ(out, "sign.keypair.from_secret_key(vec)", guard_total(|| { let kp = SigningKeyPair::<Vec<u8>, Vec<u8>>::from_secret_key(ssk.to_vec()); [kp.public_key.clone(), kp.secret_key.clone()].concat() }), &want, rp.clone());
         }
         // a key pair recomputed from a secret key keeps that secret key (clamped or not)
         for skx in [seed, { let mut x = seed; x[0] |= 7; x[31] |= 0x80; x }] {
